@@ -144,6 +144,12 @@ func newVestEnvOpts(r *rand.Rand, opt vestOpts) (*vestEnv, error) {
 	for i := 0; i < 3; i++ {
 		k := e.key(fmt.Sprintf("genesis-cva%d", i))
 		ov := sdk.NewCoins(sdk.NewCoin(vDenom, sdk.NewIntFromBigInt(new(big.Int).Add(gen.BigAmount(r, 22), big.NewInt(1000)))))
+		if i == 2 && r.Intn(2) == 0 {
+			// locked amounts around the limits of the machine integers (2^63, 2^64)
+			band := new(big.Int).Lsh(big.NewInt(1), uint(63+r.Intn(2)))
+			band.Add(band, new(big.Int).Rand(r, new(big.Int).Lsh(big.NewInt(1), 62)))
+			ov = sdk.NewCoins(sdk.NewCoin(vDenom, sdk.NewIntFromBigInt(band)))
+		}
 		if i == 1 {
 			ov = ov.Add(sdk.NewCoin("foo", sdk.NewInt(int64(1000+r.Intn(1_000_000)))))
 			// a denomination with upper-case characters (IBC vouchers look like this)
